@@ -50,6 +50,7 @@ type zoneGen struct {
 	// self, when set, is the origin host name: a service record may name it as
 	// its explicit target ("host HTTPS 1 host" instead of ".")
 	self string
+	huge bool // an address RRset of more than 32 KiB was generated
 }
 
 func (g *zoneGen) ip4() net.IP {
@@ -71,6 +72,15 @@ func (g *zoneGen) addrs(name, label string, min int) {
 	n6 := rapid.IntRange(0, 2).Draw(t, label+"_n6")
 	for i := 0; i < na; i++ {
 		g.z.A[name] = append(g.z.A[name], dnsfx.ZRec{TTL: g.ttl(), IP: g.ip4()})
+	}
+	if label == "hostaddr" && rapid.IntRange(0, 39).Draw(t, label+"_huge_rrset") == 0 {
+		// a DoH answer is an HTTP body, not a UDP datagram: any DNS message size up
+		// to 65535 bytes may arrive (16 bytes per compressed A record)
+		ttl := g.ttl()
+		for i, n := 0, rapid.IntRange(2050, 3900).Draw(t, label+"_huge_n"); i < n; i++ {
+			g.z.A[name] = append(g.z.A[name], dnsfx.ZRec{TTL: ttl, IP: g.ip4()})
+		}
+		g.huge = true
 	}
 	for i := 0; i < n6; i++ {
 		g.z.AAAA[name] = append(g.z.AAAA[name], dnsfx.ZRec{TTL: g.ttl(), IP: g.ip6()})
@@ -216,7 +226,7 @@ func compareOutcome(res ech.ResolveResult, err error, want dnsfx.RefOutcome) str
 func TestC14(t *testing.T) {
 	rec := ev.Get("C14")
 	rec.Rule("random zones served by a loopback DoH server that answers like a recursive resolver (CNAME chain first, packets built with dnsmessage): host with A/AAAA (directly or through CNAME chains), at the RFC 9460 query name either nothing, NXDOMAIN, a service RRset (1..4 records, equal/distinct priorities, targets with/without addresses, ports, ALPN, ECH markers), or an alias chain of 0..8 links (loops, self alias, alias to '.', alias to a name with only addresses) optionally behind a CNAME; forced RCODEs 1..5 and 6..23 and HTTP 4xx on single (name,type) pairs; poison records (HTTPS with attacker ECH, A, AAAA, CNAME) owned by an unrelated name in every answer. Name forms: host, host:port (0/80/443/other), scheme://host[:port][/path] (http/https/other, mixed case), IP literals, localhost, over-long hosts, labels, schemes and constructed names. Oracle: reference resolver over the zone (RFC 9460 2.3/2.4.2/3), poison markers absent, query log (types, RFC-conformant names from the allowed set, count bound). distinct = (zone shape, name form); non-trivial = zone has HTTPS records or a CNAME for the queried name")
-	rec.Mandatory("longest_valid_host", "alias_loop", "alias_chain_gt_limit", "poison", "rcode:1", "rcode:2", "rcode:3", "rcode:4", "rcode:5", "port_non443_other_scheme", "overlong_scheme", "overlong_constructed", "overlong_host", "ip_literal", "service_with_targets", "cname_to_https", "nxdomain_https", "service_targets_origin_host", "host_with_trailing_dot", "repeated_on_caching_resolver")
+	rec.Mandatory("longest_valid_host", "alias_loop", "alias_chain_gt_limit", "poison", "rcode:1", "rcode:2", "rcode:3", "rcode:4", "rcode:5", "port_non443_other_scheme", "overlong_scheme", "overlong_constructed", "overlong_host", "ip_literal", "service_with_targets", "cname_to_https", "nxdomain_https", "service_targets_origin_host", "host_with_trailing_dot", "repeated_on_caching_resolver", "answer_gt_32k")
 	rapid.Check(t, func(t *rapid.T) {
 		var cl []string
 		host := "svc.example"
@@ -289,6 +299,9 @@ func TestC14(t *testing.T) {
 				cl = append(cl, "cname_to_address")
 			} else {
 				g.addrs(host, "hostaddr", 0)
+			}
+			if g.huge {
+				cl = append(cl, "answer_gt_32k")
 			}
 			g.addrs("t1.example", "t1", 1)
 			if rapid.Bool().Draw(t, "t2_has") {
